@@ -168,6 +168,27 @@ func C19SharedCalls() {
 			out[i] <- res{p, err}
 		}(i)
 	}
+	// the peer answers each call as soon as its frame is there (its own argument echoed): the first
+	// caller may be back before the second has even registered for its reply
+	answered := 0
+	for round := 0; round < 4 && answered < 2; round++ {
+		sym.Quiesce()
+		if len(streams) == 0 {
+			continue
+		}
+		st := streams[0]
+		for _, x := range streams {
+			if !x.isClosed() {
+				st = x
+			}
+		}
+		calls := st.sentMessages()
+		for ; answered < len(calls) && answered < 2; answered++ {
+			h := calls[answered].Header
+			h.Type = net.Reply
+			st.inject(net.NewMessage(h, calls[answered].Payload))
+		}
+	}
 	sym.Quiesce()
 	sym.Assert(len(streams) >= 1, "dialled")
 	st := streams[0]
@@ -182,13 +203,6 @@ func C19SharedCalls() {
 		return
 	}
 	sym.Assert(calls[0].Header.ID != calls[1].Header.ID, "shared-calls/message-ids-distinct")
-	// answer each frame with its own argument echoed
-	for _, f := range calls {
-		h := f.Header
-		h.Type = net.Reply
-		st.inject(net.NewMessage(h, f.Payload))
-	}
-	sym.Quiesce()
 	for i := 0; i < 2; i++ {
 		r := <-out[i]
 		sym.Assert(r.err == nil, "shared-calls/call-failed")
@@ -350,6 +364,13 @@ func C19RefreshOrder() {
 	sym.Assert(err == nil, "refresh-order/last-registered-service-not-found")
 	_, err = s.findServiceID(3)
 	sym.Assert(err == nil, "refresh-order/registered-service-not-found")
+	// an unrelated service goes away: while the session refreshes its list, requests for the services
+	// that are still registered keep being resolved
+	found := make(chan error, 1)
+	s.removed <- services.ServiceRemoved{ServiceID: 9, Name: "x"}
+	go func() { _, err := s.findServiceName("a"); found <- err }()
+	sym.Quiesce()
+	sym.Assert(<-found == nil, "refresh-order/registered-service-not-found-during-a-refresh")
 	close(s.added)
 	sym.Reach("refresh-order-done")
 }
